@@ -73,7 +73,12 @@ def _observe(L, K, ops, first):
     for i, c in enumerate(L):
         m = c.measures
         ext = sorted(canon(c.extent_i))       # listings are sets: their order is not observable in the measures
-        concepts.append({'extent': ext, 'intent': sorted(canon(c.intent_i)), 'children': sorted(canon(L.children(i))),
+        intent = sorted(canon(c.intent_i))
+        if intent == [-2]:
+            # LatViz layout: the bottom node's intent is the placeholder "BOTTOM"; it stands for the intent of
+            # the (empty) bottom extent, i.e. for every attribute
+            intent = [m for m in range(K.n_attributes) if all(K.data[g][m] for g in ext)]
+        concepts.append({'extent': ext, 'intent': intent, 'children': sorted(canon(L.children(i))),
                          'stab': _frac(m['Stab']), 'lstab': _frac(m['LStab']), 'ustab': _frac(m['UStab']),
                          'logd': _nat_or_inf(cms.log_stability_lbound(i, L, 1)),
                          'logm': _nat_or_inf(m['log_stability_lbound'], math.log2(n_bin))})
@@ -113,8 +118,13 @@ def run_impl(case):
         build = case.get('build', 'from_context')
         if build == 'cbo_raw':
             L = ConceptLattice(list(cca.close_by_one(K)))            # generation order, not sorted
+        elif build == 'latviz_file':
+            L = ConceptLattice.read_json(case['path'])               # a lattice file shipped with the library
         else:
-            L = ConceptLattice.from_context(K, algo=case['algo'])
+            if case['algo'] == 'Sofia':
+                L = ConceptLattice.from_context(K, algo='Sofia', L_max=100000)   # non-binding limit: complete lattice
+            else:
+                L = ConceptLattice.from_context(K, algo=case['algo'])
             if build == 'shuffled':
                 cs = list(L)
                 random.Random(case['perm_seed']).shuffle(cs)
@@ -145,6 +155,19 @@ def run_impl(case):
                             r.shuffle(perm)
                             node[part]['Inds'] = [node[part]['Inds'][k] for k in perm]
                             node[part]['Names'] = [node[part]['Names'][k] for k in perm]
+                L = ConceptLattice.read_json(json_data=_json.dumps(d))
+            elif build == 'latviz':
+                # the LatViz layout of data/animal_movement_lattice.json: the bottom node (empty extent) carries
+                # the placeholder "BOTTOM" instead of an intent, nodes carry no measures of ours
+                import json as _json
+                d = _json.loads(L.write_json(K.object_names, K.attribute_names))
+                bot = d[0]['Bottom'][0]
+                for k, node in enumerate(d[1]['Nodes']):
+                    for key in ('LStab', 'UStab', 'Stab', 'log_stability_lbound', 'Context_Hash', 'Monotone'):
+                        node.pop(key, None)
+                    if k == bot and node['Ext']['Count'] == 0:
+                        node['Int'] = 'BOTTOM'
+                        node['Ext'] = {'Inds': [], 'Count': 0}
                 L = ConceptLattice.read_json(json_data=_json.dumps(d))
             elif build == 'remove_add':
                 removed = [_find(L, e) for e in case['pre_remove']]
@@ -189,11 +212,33 @@ def run_impl(case):
                         else:
                             L.add(c, fill_up_cache=False)
                     fresh = False
+                elif kind == 'derive':
+                    # a lattice DERIVED from L (transpose, copies, a file written and read back) gets measures of
+                    # its own; the values stored in L must not move
+                    import copy as _copy
+                    how = step[1]
+                    Kd = K
+                    if how == 'T':
+                        D, Kd = L.T, K.T
+                    elif how == 'TT':
+                        D = L.T.T
+                    elif how == 'copy':
+                        D = _copy.copy(L)
+                    elif how == 'deepcopy':
+                        D = _copy.deepcopy(L)
+                    else:
+                        D = ConceptLattice.read_json(json_data=L.write_json(K.object_names, K.attribute_names))
+                    if how in ('TT', 'deepcopy', 'json'):
+                        for e in step[2]:
+                            D.remove(_find(D, e))          # a pruned derived lattice has other bounds
+                    for m in ('stability_bounds', 'log_stability_lbound', 'stability'):
+                        D.calc_concepts_measures(m, Kd)
+                    D.measures
                 elif kind == 'rebuild':     # a second lattice over the SAME concept objects, some left out
                     L = ConceptLattice([c for c in L if sorted(c.extent_i) not in [sorted(e) for e in step[1]]])
                     complete, fresh = (not step[1]), False
                 # 'calc' and 'read' change nothing; a '*_only' step and 'read' observe WITHOUT recomputing
-                ops = [] if (mutate_only or kind == 'read') else ops_list[k]
+                ops = [] if (mutate_only or kind in ('read', 'derive')) else ops_list[k]
                 if ops:
                     fresh = True
                 snaps.append(dict(_observe(L, K, ops, False), complete=complete, fresh=fresh))
@@ -288,7 +333,7 @@ def _extents(t):
 
 def _mk(rng, t, kind, backend=None, algo=None, plain=False):
     c = {'table': t, 'backend': backend or rng.choice(BACKENDS),
-         'algo': algo or rng.choice(['Lindig', 'Lindig', 'CbO']), 'ops_list': [_ops(rng)], 'kind': kind,
+         'algo': algo or rng.choice(['Lindig', 'Lindig', 'CbO', 'Sofia']), 'ops_list': [_ops(rng)], 'kind': kind,
          'build': 'from_context', 'history': []}
     if plain:
         return c
@@ -304,7 +349,9 @@ def _mk(rng, t, kind, backend=None, algo=None, plain=False):
         # write_json refuses lattices with fewer than 3 concepts
         c['build'] = rng.choice(['permuted', 'json_permuted']) if len(exts) >= 3 else 'permuted'
         c['perm_seed'] = rng.randrange(10 ** 6)
-    elif r < 0.58 and inner:
+    elif r < 0.52 and len(exts) >= 3 and len(exts[-1]) == 0:
+        c['build'] = 'latviz'
+    elif r < 0.62 and inner:
         c['build'] = 'remove_add'
         c['pre_remove'] = rng.sample(inner, rng.randint(1, min(2, len(inner))))
     r = rng.random()
@@ -317,7 +364,7 @@ def _mk(rng, t, kind, backend=None, algo=None, plain=False):
     elif inner and r < 0.4:
         # a second lattice that reuses the concept objects (and their stored measures)
         c['history'] = [['rebuild', rng.sample(inner, rng.randint(1, min(2, len(inner))))]]
-    elif inner and r < 0.65:
+    elif inner and r < 0.62:
         # reads WITHOUT recomputing: the arrays of lattice.measures must follow the concepts of the
         # current lattice (entry i = the value held by concept i) whatever was removed or added since
         ex = ['remove_only', rng.sample(inner, rng.randint(1, min(2, len(inner))))]
@@ -329,7 +376,15 @@ def _mk(rng, t, kind, backend=None, algo=None, plain=False):
                                    [cyc, ['read'], ['calc']],
                                    [cyc, ['calc']],
                                    [['read'], cyc, ['calc'], cyc]])
-    c['ops_list'] += [([] if (st[0].endswith('_only') or st[0] == 'read') else _ops(rng)) for st in c['history']]
+    elif r < 0.8 and len(exts) >= 3 and c['build'] != 'latviz':
+        # measures on a derived lattice, then RE-READ the original (json needs >= 3 concepts)
+        how = rng.choice(['T', 'T', 'TT', 'copy', 'deepcopy', 'json'])
+        prune = rng.sample(inner, 1) if inner and rng.random() < 0.7 else []
+        c['history'] = [['derive', how, prune]]
+        if rng.random() < 0.4:
+            c['history'] += [['calc'], ['derive', rng.choice(['T', 'deepcopy', 'json']), prune]]
+    c['ops_list'] += [([] if (st[0].endswith('_only') or st[0] in ('read', 'derive')) else _ops(rng))
+                      for st in c['history']]
     return c
 
 
@@ -347,6 +402,16 @@ def special_tables(n):
         out.append(([[i == j for j in range(k)] for i in range(k)], 'nominal'))
         out.append(([[j <= i for j in range(k)] for i in range(k)], 'ordinal'))
     return out
+
+
+def unused_attr_table(rng, max_h, max_w):
+    """a random table with one all-False attribute and one object that has every other attribute"""
+    t, _ = gen.random_table(rng, max_h, max_w, min_h=2, min_w=2)
+    h, w = len(t), len(t[0])
+    j = rng.randrange(w)
+    g = rng.randrange(h)
+    t = [[(False if b == j else (True if a == g else v)) for b, v in enumerate(r)] for a, r in enumerate(t)]
+    return t
 
 
 def generate(rng, tier):
@@ -367,6 +432,8 @@ def generate(rng, tier):
         spec = special_tables(5)
     for t, kind in spec:
         cases.append(_mk(rng, t, kind))
+    for _ in range(n_rand // 10):
+        cases.append(_mk(rng, unused_attr_table(rng, max_h, max_w), 'unused_attr', algo=rng.choice(['Sofia', 'Sofia', 'Lindig', 'CbO'])))
     for _ in range(n_rand):
         t, kind = gen.random_table(rng, max_h, max_w)
         if kind == 'contranominal' and len(t) > 7:
